@@ -48,8 +48,8 @@ LAYOUTS = {
 YLAYOUT = {"one": {"time": 12, "station": 4}, "samples": {"time": 4, "station": 4}, "feature": {"time": 12, "station": 2}, "both": {"time": 6, "station": 2}, "element": {"time": 1, "station": 1}}
 
 MODELS_Q = ["EOF", "MCA", "EOFRotator"]
-MODELS_T = ["EOF", "EOF+kwargs", "SparsePCA", "POP", "POP-nopca", "OPA", "ExtendedEOF", "ExtendedEOF+pca", "EOFRotator", "EOFRotator2", "MCA", "CPCCA", "MCARotator", "MCARotator2"]
-CROSS = {"MCA", "CPCCA", "MCARotator", "MCARotator2"}
+MODELS_T = ["EOF", "EOF+w", "EOF+opts", "EOF+kwargs", "SparsePCA", "POP", "POP-nopca", "OPA", "ExtendedEOF", "ExtendedEOF+pca", "EOFRotator", "EOFRotator2", "MCA", "MCA+w", "CPCCA", "MCARotator", "MCARotator2"]
+CROSS = {"MCA", "MCA+w", "CPCCA", "MCARotator", "MCARotator2"}
 ROTATORS = {"EOFRotator", "EOFRotator2", "MCARotator", "MCARotator2"}
 
 
@@ -83,8 +83,10 @@ def build(model, compute, check_nans, deferred):
 
     kw = dict(compute=compute, check_nans=check_nans, random_state=7)
     rot = None
-    if model == "EOF":
+    if model in ("EOF", "EOF+w"):
         m = xe.single.EOF(n_modes=3, **kw)
+    elif model == "EOF+opts":
+        m = xe.single.EOF(n_modes=3, standardize=True, use_coslat=True, **kw)
     elif model == "EOF+kwargs":
         # a documented pass-through solver option (its default value): must change nothing, also on the dask route
         m = xe.single.EOF(n_modes=3, solver="randomized", solver_kwargs={"n_oversamples": 10}, **kw)
@@ -104,7 +106,7 @@ def build(model, compute, check_nans, deferred):
     elif model in ("EOFRotator", "EOFRotator2"):
         m = xe.single.EOF(n_modes=3, **kw)
         rot = xe.single.EOFRotator(n_modes=3, power=1 if model == "EOFRotator" else 2, max_iter=16 if deferred else 1000, compute=compute)
-    elif model == "MCA":
+    elif model in ("MCA", "MCA+w"):
         m = xe.cross.MCA(n_modes=2, use_pca=False, **kw)
     elif model == "CPCCA":
         m = xe.cross.CPCCA(n_modes=2, alpha=0.5, use_pca=True, n_pca_modes=3, **kw)
@@ -140,10 +142,15 @@ def workload(case, seed, scheduler_ctx):
     m, rot = build(model, compute, check_nans, deferred=not compute)
     sch = scheduler_ctx
     c0 = sch.calls if sch is not None else 0
+    # user weights derived from the (possibly chunked) data itself, e.g. inverse standard deviation: lazy when the data are
+    wx = (1.0 / x.std("time")) if model.endswith("+w") else None
+    wy = (1.0 / (1.0 + y.var("time"))) if model == "MCA+w" else None
+    if wx is not None and layout != "numpy":
+        assert is_dask(wx), "harness error: weights are expected to be lazy"
     if model in CROSS:
-        m.fit(x, y, dim="time")
+        m.fit(x, y, dim="time", weights_X=wx, weights_Y=wy)
     else:
-        m.fit(x, dim="time")
+        m.fit(x, dim="time", weights=wx)
     obs["calls_fit"] = (sch.calls - c0) if sch is not None else None
     obs["lazy_after_fit"] = {k: is_dask(v) for k, v in m.data.items()}
     if rot is not None:
